@@ -348,11 +348,28 @@ func c04r4(c *Ctx) {
 					fmt.Sprintf("first-frame AAD is {%s} (length %d+len(header)=%v); the format requires [0:32]<-%s, [32:64]<-%s, [64:]<-header: the peer's mirrored AAD will not match", br.String(), br.LenConst, br.LenOfHdr, d.first, d.next), call.Pos())
 				// within the first-frame branch: flag set, both finalizers called, before the AEAD call
 				off, _ := fieldCondEdges(fn, d.flag)
+				// the first-frame flag: set on every path from the first-frame edge to a success return (so the
+				// next frame uses the header-only AAD). Whether it is set before or after the AEAD call is not
+				// demanded: setting it only once the frame has authenticated is at least as good.
+				{
+					okFlag := len(off) > 0
+					stores := c04TrueStores(fn, d.flag)
+					for _, e := range off {
+						for _, t := range c.successTargets(fn) {
+							if ev := t.Ret.Results[len(t.Ret.Results)-1]; !isNilConst(ev) {
+								continue
+							}
+							if findPath(Point{e.To(), 0}, t.Target(), newCuts().AddInstrs(stores...)) != nil {
+								okFlag = false
+							}
+						}
+					}
+					c.Check(okFlag && len(stores) > 0, rule, fnName(fn)+"#first-frame=>"+d.flag.Name()+"=true", "every success path through the first-frame branch sets "+d.flag.Name(), "a frame can be processed on the first-frame edge and success returned without setting "+d.flag.Name()+": the digests would be bound into a second frame's associated data too and the peer's header-only AAD would not match", call.Pos())
+				}
 				for _, need := range []struct {
 					what string
 					ins  []ssa.Instruction
 				}{
-					{d.flag.Name() + "=true", c04TrueStores(fn, d.flag)},
 					{"finalizeSendDigest()", c04Calls(fn, a.finS)},
 					{"finalizeRecvDigest()", c04Calls(fn, a.finR)},
 				} {
@@ -367,10 +384,10 @@ func c04r4(c *Ctx) {
 			}
 			c.Check(firsts == 1, rule, fnName(fn)+"#first-frame-branch", "exactly one AAD buffer is built on the first-frame edge", fmt.Sprintf("%d AAD buffers are built on the edge where %s is false (expected 1)", firsts, d.flag.Name()), call.Pos())
 		}
-		// the flag is set true only on its own false edge (exactly once per direction)
-		off, _ := fieldCondEdges(fn, d.flag)
-		for _, st := range c04TrueStores(fn, d.flag) {
-			c.mustPassInstr(rule, fnName(fn)+"#"+d.flag.Name()+"=true", fn, st, newCuts().AddEdges(off...), "the edge on which "+d.flag.Name()+" is false")
+		// inside the encrypt/decrypt function the flag only ever goes to true (it is cleared by key install / import only)
+		for _, st := range storesToField(fn, d.flag) {
+			b, isB := constBool(st.Val)
+			c.Check(isB && b, rule, fnName(fn)+"#"+d.flag.Name()+"-store", "the flag is only ever set to true here", "the first-frame flag is cleared or set to a computed value: a later frame could take the first-frame branch again", st.Pos())
 		}
 		var wr []*ssa.Function
 		poss := map[*ssa.Function]token.Pos{}
